@@ -4,6 +4,7 @@ def b_Pointlist_add_points_to_node : CR.SrcW.Builder where
   kind := .fill
   tag := ""
   xsd := ""
+  path := []
   parent := ""
   attrs := []
   gattrs := []
